@@ -41,6 +41,8 @@ HdrAll == HdrInputs \cup Hdr2Inputs
 HdrQ == {x \in HdrAll : \A i \in 1..Len(x.hdrs) : Len(x.hdrs[i][1]) <= 2 /\ Len(x.hdrs[i][2]) <= 2}     \* quick tier: keys/values up to length 2
 AllQ == HdrQ \cup BodyQ          \* quick tier, one TLC run
 AllT == HdrAll \cup BodyT       \* thorough tier
+AlwaysTrue == TRUE               \* for the documentation cfgs that switch the pre-fix behaviour on
+EmptyValueOnly == {x \in HdrInputs : Len(x.hdrs) = 1 /\ Len(x.hdrs[1][2]) = 0 /\ Len(x.hdrs[1][1]) = 1}
 
 \* ---- generator.  Undamaged and CRC-level cases carry the text; bit flips only (input id, position, bit,
 \*      predicted outcome): the harness applies them to the text of the undamaged case with the same id.
